@@ -340,7 +340,7 @@ def run(scn, want=(), fault=None, script=None, fit_faults=None, probe_limit=True
                                       func_count=int(func_count), z=np.array(out[0], copy=True),
                                       f_mu=np.array(out[1], copy=True), f_s=np.array(out[2], copy=True),
                                       mu=np.array(mu), s2=np.array(s2), xi=np.array(xi, copy=True) if "es" in want else None,
-                                      phase=tr.phase, custom_beta=sqrt_beta is not None))
+                                      phase=tr.phase, custom_beta=sqrt_beta is not None, ncalls=len(tr.calls)))
                 return out
             return w
         pairs += [(BB, "acq_fcn_lcb", wrap_acq(BB.acq_fcn_lcb, "bads")), (ES, "acq_fcn_lcb", wrap_acq(ES.acq_fcn_lcb, "es"))]
